@@ -107,7 +107,7 @@ InitSt ==
     open |-> FALSE,                 \* behaviour the properties leave open was met
     \* ghosts for the properties
     eofbad |-> FALSE, eofs |-> [e \in Eps |-> 0], lowbad |-> FALSE,
-    deadcb |-> FALSE, connbad |-> FALSE, conns |-> 0, tmobad |-> FALSE ]
+    deadcb |-> FALSE, connbad |-> FALSE, conns |-> 0, tmobad |-> FALSE, whibad |-> FALSE ]
 
 ----------------------------------------------------------------------------
 (* active queue primitives *)
@@ -294,7 +294,10 @@ RECURSIVE FiltOutInner(_, _, _)
 FiltOutInner(S, m, p) ==
   LET lim == IF m = 0 /\ S.b[1].whi > 0 THEN S.b[1].whi - S.b[1].out ELSE -1
       mv == FiltMove(S.b[3].out, lim, m)
-      S1 == IF mv.k > 0 THEN PairOutCb([S EXCEPT !.b[3].out = @ - mv.k, !.b[1].out = @ + mv.k, !.b[1].wr = @ + mv.k], 1)
+      \* C18: in normal mode a filter never takes the underlying output past its high write watermark
+      over == m = 0 /\ S.b[1].whi > 0 /\ mv.k > 0 /\ S.b[1].out + mv.k > S.b[1].whi
+      S1 == IF mv.k > 0 THEN PairOutCb([S EXCEPT !.b[3].out = @ - mv.k, !.b[1].out = @ + mv.k, !.b[1].wr = @ + mv.k,
+                                                 !.whibad = @ \/ over], 1)
             ELSE S
   IN IF mv.ok /\ "W" \in S1.b[3].en /\ S1.b[3].out > 0 /\ ~FiltFullW(S1, m)
      THEN FiltOutInner(S1, m, TRUE)
@@ -350,6 +353,14 @@ OpWrite(S, e, n) ==
               \* property: pending output of an enabled writer starts the write interval;
               \* the pair implementation has no hook for that
           IN IF ShouldW(S2, e) /\ S2.b[e].wdl < 0 /\ ~InQ(S2, "wt", e) THEN ArmW(Dv(S2, "pair_wt_endpoint"), e) ELSE S2
+
+(* the application removes up to k units from e's input OUTSIDE a callback (bufferevent_read); a deferred read
+   callback that is already scheduled may then find less than the low watermark: left open *)
+OpRead(S, e, k) ==
+  LET d == Min(k, S.b[e].in)
+      S0 == [S EXCEPT !.b[e].in = @ - d, !.b[e].rd = @ + d, !.b[e].cap = Max(S.b[e].rhi, Min(@, S.b[e].in - d)),
+                      !.open = @ \/ (S.b[e].rp /\ S.b[e].in - d < S.b[e].rlo)]
+  IN IF d > 0 THEN InputDrained(S0, e) ELSE S
 
 OpEnable(S, e, evs) ==
   LET impl == (evs \ (IF S.b[e].rs # {} THEN {"R"} ELSE {})) \ (IF S.b[e].ws # {} THEN {"W"} ELSE {})
@@ -407,7 +418,7 @@ OpConnect(S) ==
 
 Legal(S, e, a) ==
   /\ S.b[e].alive
-  /\ (OneWay => IF a = "write" THEN e # 2 ELSE (a \in {"enable", "disable", "wm", "tmo", "script"} => e = 2))
+  /\ (OneWay => IF a = "write" THEN e # 2 ELSE (a \in {"enable", "disable", "wm", "tmo", "script", "read"} => e = 2))
   /\ (a = "write" => ~S.b[e].fin /\ S.b[e].conn # "bad")
   /\ (IsSock(e) /\ S.b[e].conn = "new" => a \in {"connect", "script", "tmo", "wm"})
   /\ (a = "connect" => IsSock(e) /\ S.b[e].conn = "new")
@@ -615,6 +626,8 @@ Api ==
   /\ LET S == [st EXCEPT !.log = <<>>] IN
      \/ \E e \in App, n \in Sizes : Has("write") /\ Legal(S, e, "write") /\ n > 0
           /\ AStep(OpWrite(S, e, n), [a |-> "write", e |-> e, n |-> n], 0)
+     \/ \E e \in App, k \in Drains : Has("read") /\ Legal(S, e, "read") /\ k > 0 /\ S.b[e].in > 0
+          /\ AStep(OpRead(S, e, k), [a |-> "read", e |-> e, n |-> k], 0)
      \/ \E e \in App, m \in {2, 4, 6} : Has("enable") /\ Legal(S, e, "enable") /\ ("R" \in Dirs(m) => ~S.b[e].eofd)
           /\ AStep(OpEnable(S, e, Dirs(m)), [a |-> "enable", e |-> e, m |-> m], 0)
      \/ \E e \in App, m \in {2, 4, 6} : Has("disable") /\ Legal(S, e, "disable")
@@ -678,6 +691,7 @@ ReadCbOnlyAboveLow == ~st.lowbad
 InputNeverAboveHigh == \A e \in App : (st.b[e].alive /\ st.b[e].rhi > 0) => st.b[e].in <= st.b[e].cap
 (* reading resumes: at rest, no pair endpoint holds output that its willing partner could take *)
 NoStall == (Kind = "pair" /\ Quiet(st)) => \A e \in {1, 2} : ~(st.b[e].lnk /\ Talk(st, e, P(e)))
+FilterRespectsUnderlyingHigh == ~st.whibad
 (* C19 *)
 NothingAfterFree == ~st.deadcb
 ConnectedOnceAndFirst == st.conns <= 1 /\ (Known \/ ~st.connbad)
@@ -690,7 +704,7 @@ TimerIff == Known \/ \A e \in App : (st.b[e].alive /\ ~IsSock(e)) =>
 TimerNotLate == \A e \in App : (st.b[e].alive /\ st.b[e].rdl >= 0) => st.b[e].rdl <= st.b[e].last + st.b[e].tor
 TypeOK == st.now >= 0 /\ \A e \in Eps : st.b[e].in >= 0 /\ st.b[e].out >= 0 /\ st.b[e].sref >= 0 /\ st.b[e].wire >= 0
 
-Inv == TypeOK /\ Conserved /\ EofAfterAllData /\ EofAtMostOnce /\ ReadCbOnlyAboveLow /\ InputNeverAboveHigh
+Inv == TypeOK /\ FilterRespectsUnderlyingHigh /\ Conserved /\ EofAfterAllData /\ EofAtMostOnce /\ ReadCbOnlyAboveLow /\ InputNeverAboveHigh
        /\ NoStall /\ NothingAfterFree /\ ConnectedOnceAndFirst /\ TimeoutOnlyIfDue /\ TimerIff /\ TimerNotLate
 
 ----------------------------------------------------------------------------
